@@ -404,6 +404,82 @@ def replay_files(shape, cards, code):
     return out
 
 
+NAME_SETS = [['Root', '64', '1e3', 'Inf'], ['nan', '8', '17', '0'], ['-1', '1.5', '+2', '1_0'], ['True', 'False', 'None', 'null'],
+             ['lib.core', 'lib', 'a.b.c', 'org'], ['0x10', '1e', 'e1', 'infinity']]
+
+
+def replay_names(names):
+    """models whose feature names look like numbers, literals, qualified names ... written by each format's writer and read
+    back: every constraint names exactly the features written in it (and the tree is well formed)."""
+    shape = (((), ()), ((),))
+    trees = [('IMPLIES', names[1], names[2]), ('OR', ('NOT', names[3]), names[1]), ('EXCLUDES', names[0], names[3])]
+    expect = [R.tree_names(t) for t in trees]
+    out = []
+
+    def check(label, fn):
+        try:
+            got = fn()
+        except Exception as exc:
+            out.append('%s: raises %s: %s (names %r)' % (label, type(exc).__name__, exc, names))
+            return
+        for b in wellformed(got, expect):
+            out.append('%s reader: %s (names %r)' % (label, b, names))
+    with rt.TempDir() as d:
+        def path(x):
+            return os.path.join(d, x)
+        m = lambda cards: R.build(shape, cards, names=names, ctcs=[R.ctc('c%d' % i, t) for i, t in enumerate(trees)])
+
+        def via_json():
+            JSONWriter(path('a.json'), m([(1, 2), (0, 1)])).transform()
+            return JSONReader(path('a.json')).transform()
+
+        def via_glencoe():
+            GlencoeWriter(path('a.gfm.json'), m([(1, 2), (1, 1)])).transform()
+            return GlencoeReader(path('a.gfm.json')).transform()
+
+        def via_fide():
+            FeatureIDEWriter(path('a.xml'), R.build((((),), ((),), ((),)), [(1, 1), (0, 1), (0, 1)], names=names, ctcs=[R.ctc('c%d' % i, t) for i, t in enumerate(trees)])).transform()
+            return FeatureIDEReader(path('a.xml')).transform()
+
+        def via_uvl():
+            UVLWriter(path('a.uvl'), m([(1, 2), (0, 1)])).transform()
+            return UVLReader(path('a.uvl')).transform()
+
+        def via_fama():
+            c09.fama_emit(shape, [(1, 2), (0, 1)], names, {}, [('requires', 1, 2), ('excludes', 0, 3)]).write(path('f.xml'), encoding='UTF-8', xml_declaration=True)
+            return XMLReader(path('f.xml')).transform()
+        check('json', via_json)
+        check('glencoe', via_glencoe)
+        xmlable = all(c07.xml_ok(x) and '\t' not in x for x in names)      # attribute-value normalisation turns tabs into blanks
+        if xmlable:
+            check('featureide', via_fide)
+        if not any(ch in x for x in names for ch in '".\r\n') and not any(len(x) >= 2 and x[0] == "'" and x[-1] == "'" for x in names):
+            check('uvl', via_uvl)
+        if xmlable:
+            save = expect[:]
+            expect[:] = [[names[1], names[2]], [names[0], names[3]]]
+            check('fama', via_fama)
+            expect[:] = save
+    return out
+
+
+def batch_names():
+    res = {'instances': 0, 'nontrivial': 0, 'violations': [], 'native_runs': 0}
+    # (a name that starts with an apostrophe is read as a string literal by Constraint.get_features: the library's convention, left out)
+    for ns in NAME_SETS + [c[:4] for c in rt.confusable_cases(4, ok=lambda w: not w.startswith("'"))]:
+        for names in (list(ns), list(reversed(ns))):
+            res['instances'] += 1
+            res['native_runs'] += 5
+            res['nontrivial'] += 1
+            bad = replay_names(names)
+            if bad:
+                res['violations'].append({'label': 'reader-names', 'detail': bad[0][:600], 'replay_func': 'replay_names', 'replay_args': [names]})
+                if len(res['violations']) >= 4:
+                    return res
+    res['sample'] = {'names': NAME_SETS[0]}
+    return res
+
+
 def batch_files(max_n, lo, hi, seed):
     rnd = random.Random(seed)
     res = {'instances': 0, 'nontrivial': 0, 'violations': [], 'native_runs': 0}
@@ -541,6 +617,7 @@ def batches(tier, seed):
     b += [('batch_trees', [lo, lo + st, full]) for lo in range(0, nt, st)]
     b.append(('batch_json_ref', [4 if tier == 'quick' else 5, seed]))
     b.append(('batch_afm_ref', [4 if tier == 'quick' else 5, seed]))
+    b.append(('batch_names', []))
     return b
 
 
